@@ -544,6 +544,25 @@ Error RACFGBuilder::on_instruction(InstNode* inst, InstControlFlow& cf, RAInstBu
         }
       }
 
+      // The hint describes the instruction at its operand size, which can be smaller than the virtual register:
+      //   - It's not write-only if a part of the virtual register is neither written nor zero extended (xor ax, ax).
+      //   - It's not read-only if a part of the virtual register is zero extended (and eax, eax).
+      if (same_reg_hint != InstSameRegHint::kNone) {
+        const OpRWInfo& op_rw_info = rw_info.operand(0);
+        uint64_t reg_byte_mask = ib[0]->work_reg()->reg_byte_mask();
+
+        if (same_reg_hint == InstSameRegHint::kWO) {
+          if (reg_byte_mask & ~(op_rw_info.write_byte_mask() | op_rw_info.extend_byte_mask())) {
+            same_reg_hint = InstSameRegHint::kNone;
+          }
+        }
+        else {
+          if (reg_byte_mask & op_rw_info.extend_byte_mask()) {
+            same_reg_hint = InstSameRegHint::kNone;
+          }
+        }
+      }
+
       switch (same_reg_hint) {
         case InstSameRegHint::kNone:
           break;
